@@ -180,3 +180,12 @@ Proof.
     set (r := rotq wx wy wz (1/100)). rewrite (eta4 r eq_refl). orient_unit. unfold_rot. list_eq; uring. }
   rewrite E. reflexivity.
 Qed.
+
+(* the time step derived from frequency=: for AngularRate, Madgwick, Mahony, AQUA, EKF, ROLEQ (in this order) and the nine
+   sampling rates below the regenerated constructor yields exactly the period 1/f — no rounding to a decimal grid *)
+Definition freqs : list R := [30; 60; 75; 128; 256; 333; 100; 50; 1000].
+Definition periods : list R := [1/30; 1/60; 1/75; 1/128; 1/256; 1/333; 1/100; 1/50; 1/1000].
+Lemma Dt_val u : C08_Dt_R u = Val (periods ++ periods ++ periods ++ periods ++ periods ++ periods).
+Proof. cbv beta delta [C08_Dt_R]. cbv [periods app]. apply Val_inj. repeat (apply cons_eq; [lra|]). reflexivity. Qed.
+Lemma periods_inverse : Forall2 (fun p f => p * f = 1) periods freqs.
+Proof. unfold periods, freqs. repeat (constructor; [lra|]). constructor. Qed.
